@@ -273,6 +273,8 @@ func (pc *parentController) syncRevisionClaims(parentRevisions []*parentRevision
 				continue
 			}
 
+			// Persist only the claims that survived the filtering above.
+			ck.Names = names
 			children = append(children, ck)
 		}
 
